@@ -67,6 +67,8 @@ def base_coverage(res, extra=None):
         'tlc_runs': res.tlc_runs, 'event_kinds_validated': dict(res.event_kinds),
         'wall_breakdown_s': {k: round(v, 1) for k, v in res.wall.items()},
     }
+    if getattr(res, 'design_timeouts', None):
+        cov['design_runs_without_verdict_(time_budget)'] = res.design_timeouts
     if extra:
         cov.update(extra)
     return cov
@@ -655,8 +657,17 @@ def check_C05(tier, seed):
         pipeline.add_jobs(e, all_inputs(e.g, L if len(e.g.ts) <= 3 else L - 1, 400 if tier == 'quick' else 2500), verbose=True)
         for s in gengram.sentences(e.g, rng, 3 if tier == 'quick' else 12, max_len=25 if tier == 'quick' else 80):
             pipeline.add_jobs(e, [s], tag='s')
-    res, work = prun.run(entries, 'C05', design_L=None, do_product=True, product_depth=8 if tier == 'quick' else 10,
+    # design level: on operator grammars the tree the specification builds from its resolved table must be the tree the four
+    # rules define at TREE level (MCDriver!PrecedenceShapesTheTree - an oracle that knows no table), and no sentence is lost
+    opg = [e.gid for e in entries if len(e.g.nts) == 1]
+    if tier == 'quick':
+        opg = opg[:12] + opg[12::4][:50]
+    res, work = prun.run(entries, 'C05', design_L=5 if tier == 'quick' else 6, design_only=set(opg),
+                         design_invs=['Safe', 'PrecedenceShapesTheTree', 'OperatorGrammarAcceptsItsLanguage'],
+                         do_product=True, product_depth=8 if tier == 'quick' else 10,
                          tlc_procs=4 if tier == 'quick' else 8, tlc_workers=4 if tier == 'quick' else 2)
+    if res.design_errors:
+        raise Infra('the specification\'s resolved tables contradict the tree-level reading of the precedence rules (spec bug, or the rules are not what the table construction implements): ' + json.dumps(res.design_errors)[:3000])
     domain = {e.gid for e in entries if e.gid in res.conflicts and res.conflicts[e.gid]['rr'] == 0}
     with_sr = {g for g in domain if res.conflicts[g]['n'] > 0}
     judge_traces(out, entries, res, {'table', 'verdict', 'tree', 'step', 'functor'}, domain)
@@ -665,6 +676,7 @@ def check_C05(tier, seed):
         'grammars': len(entries), 'precedence_assignments': nassign, 'grammars_with_sr_conflicts_per_spec': len(with_sr),
         'bounds': {'L_all_inputs': L, 'product_stack_depth': 8 if tier == 'quick' else 10},
         'samples': sample_traces([e for e in entries if e.gid in with_sr], 3), 'exhaustive': False})
+    out.coverage['operator_grammars_checked_against_the_tree_level_oracle'] = sum(r.get('grammars', 0) for r in res.tlc_runs if r.get('kind') == 'design' and 'distinct' in r)
     out.assumptions = std_assumptions() + ['resolution oracle = readme "Precedence and associativity summary" rules 1-4 (LR1!PreferReduce); '
                                            'the API cannot distinguish an explicit rule precedence 0 from none (named deviation)']
     return out
